@@ -581,5 +581,10 @@ def execute_bus(sc, workdir, kind):
     if not os.environ.get("VERIF_KEEP"):
         os.remove(tf)
     nacc = sum(info.get(k, 0) for k in ("write", "read", "write-single", "write-burst", "write-beat", "read-single", "read-burst", "rdv"))
+    notes = []
+    if lockres and lockres["variant"] is None:
+        d = (lockres["drift"] or [[0, "MODEL-DRIFT", "?", "?", "?"]])[0]
+        notes.append("MODEL-DRIFT module=%s cycle=%s signal=%s have=%s model=%s" % (
+            "D_Wb2Native/D_WbEq" if kind == "wb" else "D_Avl2Native", d[0] - 2, d[2], d[3], d[4]))
     return dict(bad=bad, evaluations=nacc, nontrivial=[list(k) for k in sorted(keys, key=str)], traces=nruns,
-                sample=sample, stats=stats, lockstep=lockres)
+                sample=sample, stats=stats, lockstep=(lockres["cycles"] if lockres else 0), lockstep_detail=lockres, notes=notes)
